@@ -4,6 +4,6 @@ MUTANTS = [
  (F, '                quantitative_features=[feature] if feature in self.quantitative_features else [],', '                quantitative_features=[],', None),
  (F, '            str_nan=self.str_nan,\n            dropna=False,\n        )\n\n        return labels_orders', '            str_nan=self.str_nan,\n            dropna=True,\n        )\n\n        return labels_orders', None),
  (F, '        # updating label_orders\n        labels_orders.update({feature: new_order})\n', '', None),
- (F, '        labels_orders = convert_to_labels(\n            features=self.features,\n            quantitative_features=self.quantitative_features,\n            values_orders=self.values_orders,\n            str_nan=self.str_nan,\n            dropna=False,', '        labels_orders = convert_to_labels(\n            features=[feature],\n            quantitative_features=self.quantitative_features,\n            values_orders=self.values_orders,\n            str_nan=self.str_nan,\n            dropna=False,', None),
+ (F, '        # updating labels\n        labels_orders = convert_to_labels(\n            features=self.features,', '        # updating labels\n        labels_orders = convert_to_labels(\n            features=[feature],', None),
  (F, '                features=[feature],\n                quantitative_features=[feature] if feature in self.quantitative_features else [],', '                features=self.features,\n                quantitative_features=self.quantitative_features,', None),
 ]
